@@ -9,7 +9,8 @@ ALL = [f"C{i:02d}" for i in range(1, 21)]
 CHECKS = {
     "C01": dict(
         technique="TLA+ Writer model (block stream, offset index) with index-following reader invariants checked by TLC; "
-                  "its complete depth-bounded call graph replayed into the real ArchiveWriter/ArchiveReader on 4 layer stackings",
+                  "its complete depth-bounded call graph replayed into the real ArchiveWriter/ArchiveReader on 4 layer stackings; "
+                  "TLA+ CompWriter model of the compression layer's write side replayed edge by edge",
         text="TLC checks on every reachable state of the implementation-level Writer model (all interleavings of "
              "start/append/end/add/finalize to the depth bound, piece lengths aligned on/next to chunk and block edges) "
              "that following the offset index returns exactly what was appended (IndexSound, EofSound, SizeSound, "
@@ -22,7 +23,8 @@ CHECKS = {
              "brotli bit-level fidelity delegated to C06."),
     "C02": dict(
         technique="TLA+ RepairSpec (budget and recovery operators over the Writer model's block layout) evaluated by TLC on "
-                  "traces of real repairs of every truncation of Writer-model archives (trace validation, TraceRepair.tla)",
+                  "traces of real repairs of every truncation of Writer-model archives (trace validation, TraceRepair.tla); TLA+ RepairLoop "
+                  "(implementation-level model of convert_to_archive) model-checked and replayed behaviour by behaviour on the real loop",
         text="Archives are finalized behaviours of the TLC-checked Writer model; the real convert_to_archive is run on every "
              "prefix length of each, for none/compress/encrypt/both and both modes, its output is re-opened with the real "
              "reader and projected to (names, lengths, first bad byte, unfinished, status); TLC replays the recorded trace "
@@ -44,7 +46,8 @@ CHECKS = {
              "(adversarial content + tail-chunk truncation forges a listing) carved out by signature."),
     "C04": dict(
         technique="TLA+ RepairSpec with damaged-chunk budgets (EncAuthStrict / EncAuthAsBuilt) evaluated by TLC on traces of "
-                  "real repairs of truncated, bit-flipped and adversarially continued encrypted archives",
+                  "real repairs of truncated, bit-flipped, chunk-inserted and adversarially continued encrypted archives (default reader "
+                  "configuration); TLA+ EncFailSafe model replayed edge by edge; mlar repair without option on damaged archives",
         text="For encrypted Writer-model archives: every truncation, one data-bit and one tag-bit flip in every chunk "
              "(repaired whole and cut after the damaged chunk), and contents crafted so that the bytes after the damaged "
              "chunk parse as EndOfFile(hash)+end marker; TLC checks AuthOnlyVerified (nothing beyond the verified prefix, "
@@ -55,7 +58,8 @@ CHECKS = {
              "signature in known_findings.json."),
     "C05": dict(
         technique="TLA+ CompFailSafe model (nondeterministic brotli decoder, short-reading source) checked by TLC for "
-                  "ZeroOnlyAtEnd/CompleteOnIntact/Sound; TraceRepair clauses CompleteOnIntact, Monotone, Exact validated by TLC on real repair sweeps",
+                  "ZeroOnlyAtEnd/CompleteOnIntact/Sound and liveness CallReturns; decoder events of the real loop validated against TraceCompFailSafe; "
+                  "TraceRepair clauses CompleteOnIntact, Monotone, Exact validated by TLC on real repair sweeps; RepairLoop behaviours replayed",
         text="The fail-safe decompressor's loop is model-checked against every decoder answer and source split; real "
              "archives whose compressed stream crosses 0..k block edges (both entropies, levels 0..11, many small "
              "entries) are repaired at every cut and TLC checks completeness on the intact archive, monotonicity over all "
@@ -87,7 +91,8 @@ CHECKS = {
              "Under compression only names and incompressible contents are scanned."),
     "C08": dict(
         technique="TLA+ FaultGrammar model: TLC enumerates every set of field/value-class mutations and every operation history; "
-                  "behaviours concretised (valid cryptography around crafted plaintext) and run on the real code with panics, process deaths, time and allocation observed",
+                  "behaviours concretised (valid cryptography around crafted plaintext) and run on the real code with panics, process deaths, time and allocation observed; "
+                  "every behaviour of the TLA+ RepairLoop model (arbitrary typed block streams) run through the real repair loop",
         text="The mutation space (index length word, counts, name lengths, offsets pointing at foreign blocks / mid-content / "
              "2^64-1, sizes, block types/ids/lengths, compression footer fields, truncations, long foreign-block chains) and "
              "the operation histories (open, list, read, hash, linear extraction, repair in both modes, drop, also after "
@@ -216,7 +221,8 @@ CHECKS = {
              "out by signature; every other deviation is a violation."),
     "C20": dict(
         technique="TLA+ CApi model (handle life-cycle, fault placements, callback schedules) enumerated by TLC with the required "
-                  "status of every call; each behaviour executed against the C entry points of bindings/C compiled from /repo",
+                  "status of every call; each behaviour executed against the C entry points of bindings/C compiled from /repo, from Rust and "
+                  "from a gcc-compiled C client using mla.h and libmla.a",
         text="TLC enumerates 4 call templates x one fault at every call (NULL handle first, write callback failing once) x 3 "
              "callback acceptance schedules (everything, one byte, <=3 bytes with EINTR), each template ending with uses of "
              "handles the interface has cleared; the entry points are called exactly so (a process death is attributed to the "
